@@ -525,7 +525,7 @@ func main() {
 		os.Exit(1)
 	}
 
-	nTrunc, maxSize, nDamage := 10, 1500, 3
+	nTrunc, maxSize, nDamage := 14, 1800, 4
 	if a.Tier == "thorough" {
 		nTrunc, maxSize, nDamage = 40, 3072, 12
 	}
@@ -626,6 +626,7 @@ func main() {
 	}
 	w.Stats["runner:crashes"] = r.Crashes
 	w.Stats["runner:hangs"] = r.Hangs
+	w.Stats["runner:deaths_outside_scan"] = r.OutsideScan
 	if err := w.Flush(a.Out, "Verif.C06.Check", 40); err != nil {
 		fail(err)
 	}
